@@ -94,6 +94,14 @@ def variants(cls):
     return list(CTOR.get(cls.__name__, {"": {}}))
 
 
+def second_param(cls):
+    try:
+        ps = list(inspect.signature(cls.apply).parameters)
+    except (TypeError, ValueError):
+        return None
+    return ps[2] if len(ps) > 2 else None
+
+
 def n_positional(cls):
     """number of positional target arguments of apply (before `options`)"""
     try:
@@ -247,7 +255,7 @@ class Program:
             if self._parsed is None:
                 from psyclone.psyir.frontend.fortran import FortranReader
                 self._parsed = FortranReader().psyir_from_source(self.source())
-            return Tree(self._parsed.copy())
+            return self._history(Tree(self._parsed.copy()))
         # PSy-layer invoke
         from psyclone.parse.algorithm import parse
         from psyclone.psyGen import PSyFactory, CodedKern
@@ -264,8 +272,36 @@ class Program:
             except Exception:  # pylint: disable=broad-except
                 pass
         tree = Tree(root, psy)
-        code_of(tree)   # lazily created symbols/tags of code generation appear now, not later
+        warm_up(tree)
+        return self._history(tree)
+
+    def _history(self, tree):
+        """apply the accepted transformations listed under spec["pre"] (program with a history)"""
+        for cname, variant, target, optspec in self.spec.get("pre", []):
+            trans = make_trans(trans_by_name(cname), variant, tree)
+            with contextlib.redirect_stdout(io.StringIO()):
+                trans.apply(*real_target(tree, target), options=real_options(optspec))
+        if self.spec.get("pre"):
+            warm_up(tree)
         return tree
+
+
+def warm_up(tree):
+    """PSy-layer trees compute some things lazily and store them in the tree on first *read*
+    (LFRicLoop.start_expr/stop_expr replace the bound children and declare loopN_start/stop; code
+    generation declares further symbols).  Reading them here, before the baseline snapshot, keeps such
+    caches from being mistaken for a change made by a refused transformation."""
+    from psyclone.psyir.nodes import Loop
+    if tree.psy is None:
+        return
+    for _ in range(2):
+        for loop in tree.root.walk(Loop):
+            for attr in ("start_expr", "stop_expr", "step_expr"):
+                try:
+                    getattr(loop, attr)
+                except Exception:  # pylint: disable=broad-except
+                    pass
+        code_of(tree)
 
 
 def program_specs(rng=None, n_minif=0):
@@ -402,7 +438,7 @@ def resolve(root, path):
     return n
 
 
-def targets_of(tree, npos, rng=None, max_lists=40, max_pairs=80):
+def targets_of(tree, npos, rng=None, max_lists=40, max_pairs=80, second=None):
     """JSON-able target specs for a transformation with `npos` positional target arguments."""
     from psyclone.psyir.nodes import Schedule, Statement, Loop
     from psyclone.psyGen import CodedKern
@@ -428,6 +464,12 @@ def targets_of(tree, npos, rng=None, max_lists=40, max_pairs=80):
             if isinstance(k, CodedKern) and getattr(k, "_kern_schedule", None) is not None:
                 out.append(["kernsched", path_of(k, root)])
         out += [["junk", "none"], ["junk", "str"], ["junk", "emptylist"], ["junk", "mixedlist"]]
+    elif second == "index":
+        from psyclone.psyir.nodes import Call
+        for n in nodes:
+            if isinstance(n, (Call, Loop)):
+                out += [["nodeidx", path_of(n, root), i] for i in (0, 1, 7, -1)]
+        out.append(["nodeidx", [], 0])
     else:
         cands = [n for n in nodes if isinstance(n, Statement)]
         loops = [n for n in cands if isinstance(n, Loop)]
@@ -467,6 +509,8 @@ def real_target(tree, t):
         return (resolve(root, t[1]).get_kernel_schedule(),)
     if kind == "pair":
         return (resolve(root, t[1]), resolve(root, t[2]))
+    if kind == "nodeidx":
+        return (resolve(root, t[1]), t[2])
     if kind == "pairjunk":
         return (resolve(root, t[1]), None)
     if kind == "junk":
@@ -569,3 +613,149 @@ def scratch_dir():
     os.chdir(d)
     Config.get()._kernel_output_dir = d
     return d
+
+
+# ---------------------------------------------------------------------------------------------
+# the sweep over one program
+def target_key(tree, t):
+    """class of a target, used to prune: after `prune_after` uninteresting results of one
+    transformation on targets of one class the remaining targets of that class are sampled"""
+    if t[0] in ("node", "kernsched", "nodeidx"):
+        try:
+            return t[0] + ":" + type(resolve(tree.root, t[1])).__name__
+        except Exception:  # pylint: disable=broad-except
+            return t[0]
+    if t[0] == "pair":
+        try:
+            return "pair:" + type(resolve(tree.root, t[1])).__name__ + "," + type(resolve(tree.root, t[2])).__name__
+        except Exception:  # pylint: disable=broad-except
+            return "pair"
+    return t[0]
+
+
+class Sweep:
+    """Runs attempts on one program, keeping one working tree as long as it is unchanged.
+    Two-level snapshot: structure + symbol tables after every refusal, the written code every
+    `code_every` refusals (a difference is then bisected by re-running those attempts one by one on
+    fresh trees with the full snapshot)."""
+
+    def __init__(self, prog, rng, deadline, stats, code_every=25):
+        import collections
+        import time
+        self.prog, self.rng, self.deadline, self.stats = prog, rng, deadline, stats
+        self.time = time
+        self.code_every = code_every
+        self.findings = []        # refused + changed
+        self.other = []           # non-TransformationError exceptions that changed the tree
+        self.late = collections.Counter()   # (trans, where) of refusals raised after validate
+        self.n = 0
+        self.tree = None
+        self.pending = []
+        self._renew()
+
+    def _renew(self):
+        self.tree = self.prog.fresh()
+        self.base_s = structure_of(self.tree)
+        self.base_c = code_of(self.tree)
+        self.pending = []
+
+    def out_of_time(self):
+        return self.time.time() > self.deadline
+
+    def _record(self, cls, variant, target, optspec, res, level):
+        rec = {"program": self.prog.spec, "trans": cls.__name__, "variant": variant, "target": target,
+               "options": optspec, "outcome": res["outcome"], "message": res["message"],
+               "phase": res.get("phase"), "where": res.get("where"), "diff": res.get("diff"),
+               "level": level}
+        try:
+            rec["target_text"] = describe_target(self.prog.fresh(), target)
+        except Exception:  # pylint: disable=broad-except
+            rec["target_text"] = ""
+        (self.findings if res["outcome"] == "refused" else self.other).append(rec)
+
+    def flush(self):
+        """compare the written code for the refusals since the last comparison"""
+        if not self.pending:
+            return
+        if code_of(self.tree) != self.base_c:
+            for (cls, variant, target, optspec) in self.pending:
+                tree = self.prog.fresh()
+                res = attempt(tree, cls, variant, target, optspec)
+                if res["changed"]:
+                    self._record(cls, variant, target, optspec, res, "code")
+            self._renew()
+        self.pending = []
+
+    def do(self, cls, variant, target, optspec):
+        self.n += 1
+        res = attempt(self.tree, cls, variant, target, optspec, before=self.base_s, snapfn=structure_of)
+        out = res["outcome"]
+        self.stats[out.split(":")[0]] += 1
+        if out == "refused":
+            self.stats["refused_in_" + res["phase"]] += 1
+            if res["phase"] == "apply":
+                self.late[(cls.__name__, res["where"])] += 1
+        if res["changed"]:
+            self.stats["changed_" + out.split(":")[0]] += 1
+            self._record(cls, variant, target, optspec, res, "structure")
+            self._renew()
+        elif out == "accepted":
+            self.flush()
+            self._renew()
+        elif out != "skip":
+            self.pending.append((cls, variant, target, optspec))
+            if len(self.pending) >= self.code_every:
+                self.flush()
+        return res
+
+    def run(self, classes, prune_after=3, keep=0.05, max_opts=None, opt_probe=1):
+        """phase A: every transformation x target with options None (pruned per target class);
+        phase B: every option of the pool (all constructor variants) on the targets found relevant;
+        phase C: every option once on `opt_probe` random other targets."""
+        rng = self.rng
+        for cls in classes:
+            if self.out_of_time():
+                break
+            npos = n_positional(cls)
+            tgs = targets_of(self.tree, npos, rng, second=second_param(cls))
+            rng.shuffle(tgs)
+            pool = option_pool(cls)
+            dull = {}
+            relevant, irrelevant = [], []
+            typecheck_where = None
+            probe = self.do(cls, "", ["junk", "str"] if npos == 1 else ["pairjunk", []], None)
+            if probe["outcome"] == "refused":
+                typecheck_where = probe["where"]
+            for t in tgs:
+                if self.out_of_time():
+                    break
+                key = target_key(self.tree, t)
+                if prune_after and dull.get(key, 0) >= prune_after and rng.random() > keep:
+                    self.stats["pruned"] += 1
+                    irrelevant.append(t)
+                    continue
+                res = self.do(cls, "", t, None)
+                interesting = (res["outcome"] == "accepted" or res["changed"] or
+                               (res["outcome"] == "refused" and res["where"] != typecheck_where))
+                if interesting:
+                    dull[key] = 0
+                    relevant.append(t)
+                else:
+                    dull[key] = dull.get(key, 0) + 1
+                    irrelevant.append(t)
+            opts = pool[1:]
+            for t in relevant:
+                todo = [(v, o) for v in variants(cls) for o in opts if not (v == "" and o is None)]
+                if max_opts is not None and len(todo) > max_opts:
+                    todo = rng.sample(todo, max_opts)
+                for v, o in todo:
+                    if self.out_of_time():
+                        break
+                    self.do(cls, v, t, o)
+            for v in variants(cls):
+                for o in opts:
+                    for _ in range(opt_probe):
+                        if self.out_of_time() or not irrelevant:
+                            break
+                        self.do(cls, v, rng.choice(irrelevant), o)
+        self.flush()
